@@ -794,3 +794,21 @@ Proof.
     apply in_app_or in Q1. apply in_or_app. destruct Q1 as [Q1|[Q1|[]]]; [left; assumption | right; left; assumption]. }
   lia.
 Qed.
+
+(* in terms of the 30 % margin *)
+Lemma winner_leads_by_margin : forall now mn l a b, 1 <= mn -> cnt now a l < 2 ^ 49 ->
+  majority_of now mn l = Some a -> b <> a ->
+  mn <= cnt now a l /\ 10 * cnt now b l + 5 <= 7 * cnt now a l.
+Proof.
+  intros now mn l a b Hmn Hm W Hb. apply (winner_spec now mn l a Hmn) in W. destruct W as [W1 W2].
+  split; [exact W1|]. pose proof (W2 b Hb) as Lt. destruct (threshold_bounds _ Hm) as [B _]. lia.
+Qed.
+
+(* and a sufficient condition in the same terms *)
+Lemma clear_lead_wins : forall now mn l a, 1 <= mn -> cnt now a l < 2 ^ 49 ->
+  mn <= cnt now a l -> (forall b, b <> a -> 10 * cnt now b l + 5 < 7 * cnt now a l) ->
+  majority_of now mn l = Some a.
+Proof.
+  intros now mn l a Hmn Hm H1 H2. apply (winner_spec now mn l a Hmn). split; [exact H1|].
+  intros b Hb. specialize (H2 b Hb). destruct (threshold_bounds _ Hm) as [_ B]. lia.
+Qed.
